@@ -71,8 +71,8 @@ class Script:
         nl = sum(1 for a in self.acts if a[1] == "L")
         maxdur = max(d for l in self.ld for (d, _, _) in l)
         last = max([a[0] for a in self.acts] + [0])
-        self.end = last + (nl + 1) * maxdur + 2 * self.ne + 16
-        self.wd = self.end + 64 * self.ne + 1000
+        self.end = self.meta.get("end") or last + (nl + 1) * maxdur + 2 * self.ne + 16
+        self.wd = self.meta.get("wd") or self.end + 64 * self.ne + 1000
         return self
 
     def line(self):
@@ -448,6 +448,8 @@ def monitor_c04(sc, log):
     #     starting at the instant of a Load(k) call, nothing else of k happening at that instant
     end_instants = set(t for (_, _, t, _, _) in log.ends)
     for (k, j, t) in log.starts:
+        if k in sets:
+            continue  # a Set may have displaced the load whose completion is the latest one
         calls = [a for a, act in enumerate(sc.acts) if act[1] == "L" and act[2] == k and log.call.get(a) == t]
         if not calls or t in end_instants:
             continue
@@ -677,6 +679,46 @@ def add_boundary_probes(rng, sc, log, kinds, density=3):
     return sc
 
 
+def add_burst_probes(rng, sc, log, kinds, same_instant=False):
+    """Adds bursts of calls 1 ns apart (or at one instant) around loader starts / completions."""
+    comp = completions(sc, log)
+    used = sc.used_instants()
+    nk = len(sc.keys)
+    add0 = sc.add
+
+    def add(t, kind, k):
+        if kind in ("W", "w"):
+            cands = [a for a, act in enumerate(sc.acts) if act[1] == "L" and act[2] == k and act[0] < t]
+            if not cands:
+                return add0(t, "G", k)
+            return add0(t, kind, rng.choice(cands))
+        return add0(t, kind, k)
+
+    points = []
+    for k, cs in comp.items():
+        points += [(u, k) for (u, v, e, how) in cs]
+    points += [(t, k) for (k, j, t) in log.starts]
+    rng.shuffle(points)
+    for (u, k) in points[:rng.range(1, 4)]:
+        if same_instant:
+            t = u + rng.choice([-1, 0, 1, 1, 2, 5])
+            if t < 0 or t in used:
+                continue
+            used.add(t)
+            for _ in range(rng.range(2, 3)):
+                kk = k if rng.chance(3, 4) else rng.below(nk)
+                add(t, rng.choice(kinds), kk)
+        else:
+            for off in range(-2, rng.range(1, 4)):
+                t = u + off
+                if t < 0 or t in used or not rng.chance(4, 5):
+                    continue
+                used.add(t)
+                kk = k if rng.chance(4, 5) else rng.below(nk)
+                add(t, rng.choice(kinds), kk)
+    return sc
+
+
 def boundary_hits(sc, log):
     """how many calls sit exactly at u+mE+d (m in 1,2; d in -1,0,1) of a completion of their key"""
     comp = completions(sc, log)
@@ -695,9 +737,10 @@ def boundary_hits(sc, log):
     return hits
 
 
-def refine_scripts(binary, scripts, rounds, rng):
+def refine_scripts(binary, scripts, rounds, rng, adder=None):
     """rounds: list of kind lists; each round runs the scripts and adds boundary probes
     relative to the completions observed (Get probes never change the timeline)."""
+    adder = adder or add_boundary_probes
     for kinds in rounds:
         outs = run_ft(binary, [s.line() for s in scripts])
         for sc, out in zip(scripts, outs):
@@ -706,7 +749,7 @@ def refine_scripts(binary, scripts, rounds, rng):
             log = split_trials(out)[0]
             if log.hang or log.bad:
                 continue
-            add_boundary_probes(rng, sc, log, kinds)
+            adder(rng, sc, log, kinds)
     return scripts
 
 
